@@ -37,5 +37,5 @@ MANIFEST_ENTRY = {
 
 MANIFEST_ENTRY['text'] += ' Roi.rotate_by is proved to make one rotate_to call with exactly current angle + dtheta; accumulated rotate_by sequences on polygons, mixed coordinate dtypes for the projected region and exact label membership for categorical regions are explored.'
 TRUSTED_BASE.append('Roi.rotate_by contract: numpy.pi as a real constant; rotate_to of the concrete region classes is explored by the rotate_by sequences, not proved')
-MANIFEST_ENTRY['text'] += (" Save/restore of the rectangle, circle, annulus and ellipse is proved parameter by parameter (the real __gluestate__ feeds the real __setgluestate__ through an abstract context): "
+MANIFEST_ENTRY['text'] += (" Save/restore of the rectangle, circle, annulus, ellipse and the x / y range regions is proved parameter by parameter (the real __gluestate__ feeds the real __setgluestate__ through an abstract context): "
                            "the restored region is constructed from exactly the saved numbers.")
